@@ -196,10 +196,10 @@ def rules(ctx: Ctx) -> None:
             if not (isinstance(n, ast.Compare) and len(n.ops) == 1 and isinstance(n.ops[0], (ast.Eq, ast.NotEq, ast.In, ast.NotIn))):
                 continue
             left, right = n.left, n.comparators[0]
-            proj = _text_projection(left)
+            proj = _text_projection(left, prog, f)
             lits = prog.try_fold(right, f.mod, f)
             if proj is None:
-                proj = _text_projection(right)
+                proj = _text_projection(right, prog, f)
                 lits = prog.try_fold(left, f.mod, f)
             if proj is None:
                 continue
@@ -301,6 +301,26 @@ def rules(ctx: Ctx) -> None:
                     ctx.ob("R07.7", f"no-regular-expression-over-segment-text:{f.owner}", False, loc(f.mod, k),
                            f"`{u(k)[:70]}` matches a regular expression against the text of a segment: comments and line breaks between tokens are part of that text")
     ctx.ob("R07.7", "no-regular-expression-over-segment-text:scanned", True, "sqllineage/core/parser/sqlfluff", f"{n_re} use(s) found", trivial=True)
+    # ---- R07.8 where a token stands in the text (line, column, offset) never enters the analysis: positions are exactly what re-flowing a script changes
+    n_pos = 0
+    for f in prog.funcs.values():
+        if f.mod.name in ("sqllineage.cli", "sqllineage.drawing"):
+            continue
+        for k in prog.walk_fn(f):
+            if isinstance(k, ast.Attribute) and k.attr in _POSITION_API:
+                n_pos += 1
+                ctx.ob("R07.8", f"no-source-position:{f.owner}:{k.attr}", False, loc(f.mod, k),
+                       f"`{u(k)[:60]}` reads where a token stands in the text: line breaks and indentation then decide the result")
+    ctx.ob("R07.8", "no-source-position:scanned", True, "sqllineage/", f"{n_pos} use(s) of the position API of sqlfluff / sqlparse found", trivial=True)
+
+    # ---- R07.9 (= R08.2): a name that is looked up among the CTE aliases goes through the normaliser first - compared as written (or merely
+    # lower-cased) a quoted reference to a lower-case CTE misses it and is reported as a table
+    _common.import_rules(ctx, "C08", {"R08.2": "R07.9"})
+
+
+# position API of sqlfluff (PositionMarker and the segment methods that return one)
+_POSITION_API = {"pos_marker", "line_no", "line_pos", "working_line_no", "working_line_pos", "source_slice", "templated_slice", "source_position", "templated_position",
+                 "get_start_loc", "get_end_loc", "get_start_point_marker", "get_end_point_marker", "start_point_marker", "end_point_marker"}
 
 
 def _is_compiled_pattern(prog: Prog, f, e: ast.AST) -> bool:
@@ -312,8 +332,14 @@ def _is_compiled_pattern(prog: Prog, f, e: ast.AST) -> bool:
     return False
 
 
-def _text_projection(e: ast.AST) -> Optional[str]:
-    """'upper' | 'lower' | 'raw' for expressions denoting a segment/token text; None otherwise."""
+_CASE_KEEPING = {"strip", "rstrip", "lstrip", "split", "rsplit", "partition", "rpartition", "replace", "removeprefix", "removesuffix", "format", "join", "raw_normalized"}
+
+
+def _text_projection(e: ast.AST, prog: Optional[Prog] = None, f=None, depth: int = 0) -> Optional[str]:
+    """'upper' | 'lower' | 'raw' for expressions denoting (a piece of) a segment / token text; None otherwise.  Looks through the string
+    operations that keep letter case (strip, split, slicing, raw_normalized ...) and, given the program, through locals."""
+    if depth > 6:
+        return None
     if isinstance(e, ast.Attribute):
         if e.attr == "raw_upper":
             return "upper"
@@ -321,9 +347,25 @@ def _text_projection(e: ast.AST) -> Optional[str]:
             return "upper"
         if e.attr in ("raw", "value"):
             return "raw"
+    if isinstance(e, ast.Subscript):
+        return _text_projection(e.value, prog, f, depth + 1)
     if isinstance(e, ast.Call) and isinstance(e.func, ast.Attribute):
         if e.func.attr == "upper":
-            return "upper" if _text_projection(e.func.value) is not None or isinstance(e.func.value, (ast.Attribute, ast.Call)) else None
-        if e.func.attr == "lower":
-            return "lower" if _text_projection(e.func.value) is not None or isinstance(e.func.value, (ast.Attribute, ast.Call)) else None
+            return "upper" if _text_projection(e.func.value, prog, f, depth + 1) is not None or isinstance(e.func.value, (ast.Attribute, ast.Call)) else None
+        if e.func.attr in ("lower", "casefold"):
+            return "lower" if _text_projection(e.func.value, prog, f, depth + 1) is not None or isinstance(e.func.value, (ast.Attribute, ast.Call)) else None
+        if e.func.attr == "raw_normalized":
+            return "raw"  # quotes are stripped; letter case is folded for identifiers only, and by the dialect's rule
+        if e.func.attr in _CASE_KEEPING:
+            return _text_projection(e.func.value, prog, f, depth + 1)
+    if isinstance(e, ast.Call) and isinstance(e.func, ast.Name) and e.func.id == "str" and len(e.args) == 1:
+        return _text_projection(e.args[0], prog, f, depth + 1)
+    if isinstance(e, ast.Name) and prog is not None and f is not None:
+        srcs = [v for v in prog.value_sources(f, e) if not (isinstance(v, ast.Name) and v.id == e.id)]
+        if not srcs:
+            return None
+        ps = {_text_projection(v, prog, f, depth + 1) for v in srcs}
+        if None in ps:
+            return None
+        return ps.pop() if len(ps) == 1 else "raw"
     return None
